@@ -5,8 +5,8 @@ OPS = {'o1': dict(name='A', eqv=1, k=2, x0=10), 'o2': dict(name='A', eqv=2, k=3,
 NT_OP = {'t1': 'o1', 't2': 'o2', 't3': 'o3', 't4': 'o1', 't6': 'o2'}
 NT_VAR = {'t1': {}, 't2': {}, 't3': {'k': 7.0}, 't4': {'x': 15.0}, 't6': {'k': 6.0}}
 CIRC_NODES = {'c1': [('a', 't1'), ('b', 't1'), ('c', 't4')], 'c2': [('a', 't6'), ('b', 't2')], 'c3': [('a', 't3'), ('b', 't1')]}
-EDGE_GAIN = {'c1': 3, 'c2': 1, 'c3': 6, 'cy': 1, 'd1': 3}      # edge templates of c1 / c3: operators named 'E' with different gains
-INP_VAL = {'c1': 7.0, 'c2': 11.0, 'c3': 13.0, 'cy': 17.0, 'd1': 19.0}
+EDGE_GAIN = {'c1': 3, 'c2': 1, 'c3': 6, 'cy': 1, 'd1': 3, 'd2': 1}      # edge templates of c1 / c3: operators named 'E' with different gains
+INP_VAL = {'c1': 7.0, 'c2': 11.0, 'c3': 13.0, 'cy': 17.0, 'd1': 19.0, 'd2': 23.0}
 # d1 = c1.update_template(name='d1'): a derived circuit that references c1's node templates and edges
 CIRC_EDGES = {'c1': [(1, 2, 4.0), (3, 1, 6.0)], 'c2': [], 'c3': [(1, 2, 8.0)]}
 VAR = {'k': 'k', 'x0': 'x'}
@@ -17,6 +17,8 @@ CIRC_NODES['cy'] = [('a', 't5')]
 CIRC_EDGES['cy'] = []
 CIRC_NODES['d1'] = list(CIRC_NODES['c1'])
 CIRC_EDGES['d1'] = list(CIRC_EDGES['c1'])
+CIRC_NODES['d2'] = list(CIRC_NODES['c2'])       # d2 = c2.update_template(name='d2', edges=[a -> b])
+CIRC_EDGES['d2'] = [(1, 2, 2.0)]
 CY_YAML = """
 Y:
   base: OperatorTemplate
@@ -73,7 +75,7 @@ class Universe:
         with open('ymodels/cyfile.yaml', 'w') as f:
             f.write(CY_YAML)
         for c, nodes in CIRC_NODES.items():
-            if c in ('cy', 'd1'):
+            if c in ('cy', 'd1', 'd2'):
                 continue
             nd = {n: self.nts[t] for n, t in nodes}
             ed = []
@@ -189,6 +191,9 @@ class Universe:
             else:
                 self.circs['d1'] = self.circs['c1'].update_template(name='d1')
                 CIRC_EDGES['d1'] = list(CIRC_EDGES['c1'])
+            return None
+        if a == 'derive2':
+            self.circs['d2'] = self.circs['c2'].update_template(name='d2', edges=[('a/A/x', 'b/A/u', self.etmps['c2'], {'weight': 2.0})])
             return None
         if a == 'from_yaml':
             from pyrates import CircuitTemplate
